@@ -32,6 +32,7 @@ type cfgT struct {
 	closed  bool // shutdownOnce done
 	trusted bool // path flag: a trust predicate was taken on its positive edge
 	closing bool // path flag: a goroutine that must close the connection was spawned
+	armed   bool // path flag: the handshake timer was (re-)armed during this run
 }
 
 type akind uint8
@@ -775,11 +776,13 @@ func (f *fsm) storeField(fn *ssa.Function, st *ssa.Store, fld *types.Var, val av
 			n := t.clone()
 			t.cfg.timer = false
 			n.cfg.timer = true
+			n.cfg.armed = true
 			f.effect("arm", "", fn, st.Pos(), n.cfg, ctx)
 			return []*tuple{t, n}
 		}
 		t.cfg.timer = b
 		if b {
+			t.cfg.armed = true
 			f.effect("arm", "", fn, st.Pos(), t.cfg, ctx)
 		}
 		return []*tuple{t}
